@@ -352,6 +352,9 @@ class SelectorWait(Contract):
         sock = ExtObj('socket', st.fresh_id('sock'))
         g = extworld.sock_state(st, sock)
         g['has_pending'] = BoolVal(v == 'tls-socket')
+        if v == 'tls-socket':
+            # $tls: bytes already decrypted and buffered inside the TLS object (what pending() returns)
+            g['tls'] = mk(ip, T.Int(0, 16384), 'tls')
         sel = mk(ip, T.Obj(SelectorBase, _socket=T.Const(sock)), 'selector')
         st.ghost['sel_sock'] = sock
         return dict(self=sel, max_bytes=mk(ip, T.Int(1), 'max_bytes'), timeout=mk(ip, T.Real(0), 'timeout'))
@@ -380,6 +383,8 @@ class SelectorWait(Contract):
             waits = st.ghost.get('wait_log', [])[len(old.ghost.get('wait_log', [])):]
             tls = g.get('tls')
             if tls is not None:
+                pend_calls = [e for e in st.ghost.get('io_log', [])[len(old.ghost.get('io_log', [])):] if e[0] == 'pending']
+                out.append(('looks-at-the-TLS-buffer-before-blocking', BoolVal(len(pend_calls) >= 1 or len(waits) == 0), ('C18',)))
                 out.append(('buffered-tls-bytes-returned-without-blocking',
                             Implies(tls > 0, And(readable, iv(n) == tls, BoolVal(len(waits) == 0))), ('C18',)))
                 out.append(('blocks-only-when-nothing-buffered', Implies(BoolVal(len(waits) > 0), tls == 0), ('C18',)))
